@@ -897,8 +897,9 @@ class Check:
             "wall_s": round(wall, 2),
             "violations": len(new),
         }
-        os.makedirs(os.path.join(VERIF, "evidence"), exist_ok=True)
-        with open(os.path.join(VERIF, "evidence", self.prop + ".json"), "w") as f:
+        evdir = os.environ.get("VERIF_EVIDENCE_DIR") or os.path.join(VERIF, "evidence")
+        os.makedirs(evdir, exist_ok=True)
+        with open(os.path.join(evdir, self.prop + ".json"), "w") as f:
             json.dump(ev, f, indent=1)
         # console report
         for r, d in sorted(per_rule.items()):
@@ -908,7 +909,7 @@ class Check:
         for l in kf_lines:
             print(l)
         if new:
-            rp = os.path.join(VERIF, "evidence", "replay")
+            rp = os.path.join(evdir, "replay")
             os.makedirs(rp, exist_ok=True)
             path = os.path.join(rp, self.prop + ".json")
             with open(path, "w") as f:
@@ -1288,6 +1289,82 @@ def pattern_str_lits(n):
                 rec(a["pat"])
         elif x.get("k") in ("let", "letst"):
             rec(x.get("pat"))
+    return out
+
+
+def place_root(n):
+    """(root local node or None, field path list) of a place expression (locals, fields, derefs, index, method receivers peeled)."""
+    path = []
+    while isinstance(n, dict):
+        k = n.get("k")
+        if k == "local":
+            return n, list(reversed(path))
+        if k == "field":
+            path.append(n.get("n"))
+            n = n.get("e") or n.get("base") or (list(children(n)) or [None])[0]
+        elif k in ("deref", "paren", "addr", "index", "cast", "dropt", "unary"):
+            n = (list(children(n)) or [None])[0]
+        elif k == "mcall" and n.get("m") in ("as_mut", "unwrap", "borrow_mut", "as_deref_mut", "get_mut", "iter_mut", "deref_mut", "as_mut_slice", "entry", "or_default", "or_insert_with", "last_mut", "first_mut"):
+            n = n.get("recv")
+        else:
+            return None, list(reversed(path))
+    return None, list(reversed(path))
+
+
+def mutations(n):
+    """Places mutated by expression tree n: assignments, `&mut place` borrows, and method calls whose adjusted receiver
+    is `&mut`.  Yields (root_local_node, field_path, kind, node); root None when the place is not rooted in a local."""
+    for x in walk(n):
+        k = x.get("k")
+        if k in ("assign", "assignop"):
+            ch = list(children(x))
+            if ch:
+                r, path = place_root(ch[0])
+                yield r, path, k, x
+        elif k == "addr" and str(x.get("mut")) == "True":
+            ch = list(children(x))
+            if ch:
+                r, path = place_root(ch[0])
+                yield r, path, "&mut", x
+        elif k == "mcall" and (x.get("rty") or "").startswith("&mut "):
+            r, path = place_root(x.get("recv"))
+            yield r, path, "mcall:" + x.get("m", "?"), x
+
+
+LOOP_KINDS = ("for", "while", "loop")
+
+
+ITER_CLOSURE_METHODS = ("for_each", "map", "filter_map", "flat_map", "filter", "any", "all", "fold", "try_for_each", "find", "find_map",
+                        "position", "inspect", "retain", "take_while", "skip_while", "map_while", "try_fold", "partition", "max_by_key", "min_by_key", "sort_by_key")
+
+
+def loop_body(n):
+    if n.get("k") == "closure":
+        return n.get("body") or n.get("b") or n.get("e") or (list(children(n)) or [None])[-1]
+    return n.get("body") or n.get("b") or (list(children(n)) or [None])[-1]
+
+
+def loop_carried(loop):
+    """Mutations inside a loop of places rooted in locals bound OUTSIDE the loop (state that survives an iteration)."""
+    inner = bound_inside(loop)
+    out = []
+    for r, path, kind, node in mutations(loop_body(loop)):
+        if r is not None and r.get("id") not in inner:
+            out.append((r.get("n"), path, kind, node))
+    return out
+
+
+def enclosing_loops(body):
+    """Every loop below body: for/while/loop nodes and closures handed to iterator adaptors (`.for_each(|x| ..)`, ...)."""
+    out = []
+    for x in walk(body):
+        if x.get("k") in LOOP_KINDS:
+            out.append(x)
+        elif x.get("k") == "mcall" and x.get("m") in ITER_CLOSURE_METHODS:
+            for a in x.get("a", []):
+                a = strip(a)
+                if isinstance(a, dict) and a.get("k") == "closure":
+                    out.append(a)
     return out
 
 
